@@ -19,8 +19,10 @@ BOXES_MAP = z3.Function("boxes_in_global_frame", I, S, I)
 VIS_LEN = z3.Function("visibility_table_len", I, I)
 V3 = z3.Function("ndarray3_item", I, I, R)
 
-INT_FIELDS = {("sample", "timestamp"), ("sample_annotation", "num_lidar_pts")}
-STR_FIELDS = {("sample_annotation", "instance_token"), ("sample_annotation", "visibility_token"), ("visibility", "level"), ("attribute", "name")}
+INT_FIELDS = {("sample", "timestamp"), ("sample_annotation", "num_lidar_pts"), ("sample_annotation", "num_radar_pts"), ("sample_data", "timestamp"), ("ego_pose", "timestamp")}
+STR_FIELDS = {("sample_annotation", "instance_token"), ("sample_annotation", "visibility_token"), ("sample_annotation", "sample_token"), ("sample_annotation", "category_name"),
+              ("visibility", "level"), ("attribute", "name"), ("sample_data", "sample_token"), ("sample_data", "ego_pose_token"), ("sample_data", "calibrated_sensor_token"),
+              ("sample_data", "channel"), ("instance", "category_token"), ("category", "name")}
 LIST_FIELDS = {("sample_annotation", "attribute_tokens")}
 
 
